@@ -34,7 +34,7 @@ BASE = dict(
     treacherous=0.5, shapes=0.05, str_dtype=0.3, measures=SET_JOINS,
     threads=0.2, process=0.5, extras=0.5, outs=0.5, big=0.1,
     wrong_mode_filters=0.0, siblings=0.08, retune=0.0, qgram_pref=0.2,
-    fault_hist=0.12, edit=0.0, hashproc=0.0)
+    fault_hist=0.12, edit=0.0, hashproc=0.0, convert_numeric=0.0)
 
 
 def profile(prop):
@@ -76,7 +76,8 @@ def profile(prop):
     elif prop == 'C10':
         p.update(ops={'join': 0.45, 'filter_tables': 0.2,
                       'filter_candset': 0.12, 'apply_matcher': 0.15,
-                      'filter_pair': 0.08},
+                      'filter_pair': 0.08, 'convert': 0.04},
+                 convert_numeric=0.8,
                  measures=SET_JOINS + ['EDIT_DISTANCE'], hist=(1, 2),
                  rows=(0, 14), big=0.15,
                  variants={'n_jobs': 2.0, 'permute': 0.7, 'relabel': 0.4,
@@ -91,14 +92,15 @@ def profile(prop):
     elif prop == 'C12':
         p.update(ops={'join': 0.38, 'filter_tables': 0.14,
                       'filter_candset': 0.15, 'filter_pair': 0.08,
-                      'apply_matcher': 0.12, 'profile': 0.05, 'convert': 0.03,
+                      'apply_matcher': 0.12, 'profile': 0.05, 'convert': 0.05,
                       'pipeline': 0.05},
                  measures=SET_JOINS + ['EDIT_DISTANCE', 'EDIT_DISTANCE'],
                  hist=(3, 10), n_tables=(2, 4), twin=1.0, reject=0.12,
                  faults={'worker_crash': 0.3, 'tok_raise': 0.5,
                          'sim_raise': 0.2}, p_fault=0.2, rows=(0, 8),
                  tight=0.1, wrong_mode_filters=0.3, chain_candsets=0.5,
-                 threads=0.35, siblings=0.25, retune=0.08, edit=0.06)
+                 threads=0.35, siblings=0.25, retune=0.08, edit=0.06,
+                 convert_numeric=0.6)
     elif prop == 'C15':
         p.update(ops={'join': 0.4, 'filter_tables': 0.2, 'filter_candset': 0.1,
                       'apply_matcher': 0.1, 'filter_pair': 0.05,
@@ -428,6 +430,10 @@ def gen_table(g, name, big):
         pm = 0.0
     if rng.random() < 0.3:
         pe = 0.0
+    fvals = [0.5, 1.0, -2.25, 3.0, 1e-3]
+    if prof.get('convert_numeric') and 'f' in dtypes and             rng.random() < 0.4:
+        # a float column of integral values (ids read from a file with gaps)
+        fvals = [1.0, 3.0, 7.0, 12.0, -2.0]
     rows = []
     for i in range(n):
         row = {}
@@ -458,7 +464,7 @@ def gen_table(g, name, big):
                 'c%03d' % (5 * i + 1)
         if 'f' in dtypes:
             row['f'] = None if rng.random() < 0.2 else \
-                rng.choice([0.5, 1.0, -2.25, 3.0, 1e-3])
+                rng.choice(fvals)
         if 'b' in dtypes:
             row['b'] = rng.random() < 0.5
         if 'd' in dtypes:
@@ -1408,10 +1414,31 @@ def gen_profile(g):
 def gen_convert(g):
     rng = g.rng
     t = rng.choice(g.tables)
+    spec = g.case['tables'][t['name']]
+    if rng.random() < g.prof.get('convert_numeric', 0.0):
+        # numeric columns, in the modes that work on the pinned tree under
+        # this pandas: series_to_str and return_col=True always; the default
+        # mode (a converted copy of the frame) only for a column without any
+        # value (0 rows / all NaN) - for other columns it raises on the pinned
+        # tree (DESIGN 6, "noted only")
+        num = [c for c in spec['columns']
+               if spec['dtypes'][c] in ('int64', 'float64')]
+        if num:
+            col = rng.choice(num)
+            if 'f' in num and rng.random() < 0.5:
+                col = 'f'
+            ci = spec['columns'].index(col)
+            no_value = all(r[ci] is None for r in spec['rows'])
+            which = rng.choice(['series', 'frame'])
+            rc = True
+            if which == 'frame' and no_value and rng.random() < 0.7:
+                rc = False
+            return {'op': 'convert', 't': t['name'], 'col': col,
+                    'which': which, 'return_col': rc, 'numeric': True}
     # string columns are returned unchanged: the part of the converters that
     # works on this pandas (see DESIGN 6, "noted only")
     col = rng.choice([t['v'], t['s']])
-    if g.case['tables'][t['name']]['dtypes'][col] != 'object':
+    if spec['dtypes'][col] != 'object':
         return None
     return {'op': 'convert', 't': t['name'], 'col': col,
             'which': rng.choice(['series', 'frame']),
